@@ -19,13 +19,13 @@ ASSUMPTIONS = ['for non-monotone programs the value (if any) depends on evaluati
                'stamp_none needs iteration < 255 (increment 255 wraps into the cancellation byte; unreachable because iteration <= 200)']
 
 def ties(ctx):
-    n = 1500 if ctx.tier == 'quick' else 100000
+    n = 8000 if ctx.tier == "quick" else 150000
     return [run_edges(ctx, set('SI')), run_cycle(ctx, n, known_keys=KNOWN, flavours='3,0', seed_offset=4)]
 
 def search(ctx, reason):
     t = run_cycle(ctx, 200000, known_keys=KNOWN, flavours='3,0', seed_offset=99, tag='search-cycle')
     for f in t.failures:
-        if f.kind == 'oracle' and f.key not in KNOWN:
+        if f.kind == 'oracle' and f.key not in KNOWN and f.key not in listed_keys():
             return f
     return None
 
